@@ -20,11 +20,16 @@ LEVEL = 'model_checking'
 ATOMS = ['a', ' ', '\n', '{', '}', '$', '%', '~', '-', '\\[', '\\]', '\\alpha', '\\textbf', '\\frac', "\\'", 'e',
          '\\emph', '\\sqrt', '[', ']', '\\item', '\\begin{itemize}', '\\end{itemize}', '\\begin{foo}', '\\end{foo}',
          '\\begin{equation}', '\\end{equation}', '&', '`', '\\i', '\\\\', '\\(', '\\)', "'", '\\text', '\\c', 'c',
-         '\\alpha ', '%c\n', '\\alpha\t']      # compound atoms: reach macro + blank + comment + text within K = 3
+         '\\alpha ', '%c\n', '\\alpha\t', '$\\textbf{$a$}$']      # compound atoms: reach macro + blank + comment + text within K = 3
 BLOCKS = ['a', '{a}', '\\textbf{b}', '$x$', 'a~b', '\\frac{a}{b}', '\\[x\\]', '\\begin{itemize}\\item a\\end{itemize}',
-          'a--b', "\\'e", '\\emph{a $y$}', '{\\alpha}', '\\begin{equation}x\\end{equation}', 'a%c\nb']
-POLS = ['macros', 'based-on-source', 'except-in-equations', 'true']
-POLVAL = {'macros': 'macros', 'based-on-source': 'based-on-source', 'except-in-equations': 'except-in-equations', 'true': True}
+          'a--b', "\\'e", '\\emph{a $y$}', '{\\alpha}', '\\begin{equation}x\\end{equation}', 'a%c\nb',
+          '$x \\textbf{if $y$} z$', '{a} {b} \\alpha c']
+POLS = ['macros', 'based-on-source', 'except-in-equations', 'true', 'dict-mc', 'dict-lc-ac-eq']
+POLVAL = {'macros': 'macros', 'based-on-source': 'based-on-source', 'except-in-equations': 'except-in-equations', 'true': True,
+          # dictionary-valued policies (documented form); unspecified keys are False / None
+          'dict-mc': {'between-macro-and-chars': True, 'between-latex-constructs': False},
+          'dict-lc-ac-eq': {'between-latex-constructs': True, 'after-comment': True, 'in-equations': 'macros'}}
+PRESET_POLS = ['macros', 'based-on-source', 'except-in-equations', 'true']
 OPTS = [dict(keep_comments=kc, keep_braced_groups=kb, math_mode=mm) for kc in (False, True) for kb in (False, True)
         for mm in ('text', 'with-delimiters', 'verbatim', 'remove')]
 
@@ -103,6 +108,8 @@ class TextConsumer(Consumer):
         self.sample(dict(s=s, macros_text=uncodes(rec['outs']['macros'][0])), every=1999)
         for pol, outs in rec['outs'].items():
             for i, out in enumerate(outs):
+                if self.payload.get('rotate') and (i + self.n) % 2:
+                    continue            # quick tier: every string under all policies and every second option set, alternating
                 o = OPTS[i]
                 m = uncodes(out)
                 self.counters['renders'] += 1
@@ -129,7 +136,7 @@ def run(ctx):
                 'latex_to_text must return exactly the same text; compositionality is checked on %d x %d block pairs. '
                 'Non-trivial: the string contains markup.' % (len(ATOMS), len(BLOCKS), len(BLOCKS)))
     text = mc_text(atoms, K)
-    jobs = [dict(main='MC_L2TRun', mc=text, cfg=cfg_text(K, sh), tlc_kw=dict(timeout=6000, xmx='3g'))
+    jobs = [dict(payload=dict(rotate=quick), main='MC_L2TRun', mc=text, cfg=cfg_text(K, sh), tlc_kw=dict(timeout=6000, xmx='3g'))
             for sh in range(0, len(atoms) + 1)]
     m = common.run_shards(ctx, ('harness.c03', 'TextConsumer'), jobs, what='L2TRun strings <= %d' % K)
     ctx.add_merged(m)
@@ -145,7 +152,7 @@ def run(ctx):
         for b in BLOCKS:
             for sep in ('\n\n', ' '):
                 for pol in POLS:
-                    if sep == ' ' and pol == 'based-on-source':
+                    if sep == ' ' and pol in ('based-on-source', 'dict-mc'):
                         continue
                     for o in OPTS[::5]:
                         cv = l2t(pol, o)
@@ -208,7 +215,7 @@ CHECK_DEADLOCK FALSE
 """
 
 
-def doc_jobs(maxacts, features=DOC_FEATURES, shards=None):
+def doc_jobs(maxacts, features=DOC_FEATURES, shards=None, rotate=False):
     from . import docwriter
     d = contexts.describe('default')
     jobs = []
@@ -230,14 +237,14 @@ def doc_jobs(maxacts, features=DOC_FEATURES, shards=None):
                                                        sorted({32, 305, 567} | set(range(48, 58)) | set(range(97, 123)))))
         cfg = DOC_CFG % dict(maxacts=maxacts, features=', '.join('"%s"' % f for f in features),
                              ctxconst=contexts.cfg_constants('default').rstrip('\n'), pols=', '.join('"%s"' % p for p in POLS))
-        jobs.append(dict(main='MC_DocL2T', mc=text, cfg=cfg, tlc_kw=dict(timeout=6000, xmx='4g')))
+        jobs.append(dict(payload=dict(rotate=rotate), main='MC_DocL2T', mc=text, cfg=cfg, tlc_kw=dict(timeout=6000, xmx='4g')))
     return jobs
 
 
 def run_documents(ctx):
     quick = ctx.tier == 'quick'
     n = 3 if quick else 4
-    m = common.run_shards(ctx, ('harness.c03', 'TextConsumer'), doc_jobs(n), what='DocL2T written documents <= %d actions' % n)
+    m = common.run_shards(ctx, ('harness.c03', 'TextConsumer'), doc_jobs(n, rotate=quick), what='DocL2T written documents <= %d actions' % n)
     ctx.add_merged(m)
     ctx.log('written documents (<= %d actions, %d construct sets): %d documents, %d renderings compared' % (
         n, len(DOC_SHARDS), m['n'], m['counters'].get('renders', 0)))
